@@ -41,12 +41,13 @@ EXHAUSTIVE = False
 RULE = ("operation lists over add(prefix in 2, number in 0..3, timeout in {0.1,1,5}, on_timeout behaviour in "
         "{nothing, pop another, pop itself, add another, re-add own identity}, tied future in {none, None, value, "
         "exception}, duplicate flavour) / add_random (scripted collisions with every claimed number first) / pop / "
-        "get / has (by name or class) / retrieve_cache handler call / register_future / advance to the k-th pending "
+        "get / has (by name or class) / retrieve_cache handler call / claim of the k-th earliest pending request / register_future / advance to the k-th pending "
         "deadline -eps|+0|+eps / sleep / 'at' (a sync op run as a loop callback at a deadline -eps|+0|+eps) / "
         "passthrough(filter, timeout) around the next 1..3 ops / clear / shutdown, each list run in one virtual-time "
         "loop against the model and followed by a drain past every deadline ever set: all words to depth 6 (quick), "
-        "7 (thorough) over an 8-letter 'schedule' and a 9-letter 'lifecycle' alphabet plus depth 8 over their "
-        "6-letter cores, plus Hypothesis-drawn lists up to 40 ops. Non-trivial = a claim/clear/shutdown within the "
+        "7 (thorough) over an 8-letter 'schedule' and an 8-letter 'lifecycle' alphabet plus depth 8 over their "
+        "6-letter cores (words that register nothing or start with a no-op on the empty cache are skipped as "
+        "repeats of shorter words), plus Hypothesis-drawn lists up to 40 ops. Non-trivial = a claim/clear/shutdown within the "
         "loop iteration of the target's expiry, a pop issued from inside on_timeout, or shutdown with something "
         "outstanding; distinct = digest of the op list.")
 ASSUMPTIONS = [
@@ -376,6 +377,16 @@ class Run:
             if cands:
                 e = cands[op[1] % len(cands)]
                 self.op_pop(e.p, e.n, 0, where)
+        elif kind == "popd":
+            # claim the outstanding request with the k-th earliest deadline: 0 pop by name, 1 pop by class,
+            # 2 / 3 retrieve_cache handler (plain / with trailing raw data)
+            cands = sorted(self.out.values(), key=lambda e: (e.deadline, e.cid))
+            if cands:
+                e = cands[op[1] % len(cands)]
+                if op[2] < 2:
+                    self.op_pop(e.p, e.n, op[2], where)
+                else:
+                    self.op_retrieve(e.p, e.n, op[2] - 2, where)
         elif kind in ("get", "has"):
             self.op_lookup(kind, op[1], op[2], op[3])
         elif kind == "retrieve":
@@ -728,7 +739,7 @@ RT = ["retrieve", "pa", 0, 0]
 
 ALPHABETS = {
     "schedule": [A0, A1, A2, P0, V0, VM, VP, AT],
-    "lifecycle": [A0, A3, AR, SH, CL, PT, V0, VP, RT],
+    "lifecycle": [A0, A3, AR, SH, CL, PT, V0, RT],
     "schedule-core": [A0, A1, P0, V0, VP, AT],
     "lifecycle-core": [A0, A3, SH, CL, PT, V0],
 }
@@ -739,11 +750,13 @@ def _exhaustive_shard(ctx: Ctx, shard: int, nshards: int, plan: list) -> None:
     for name, depth in plan:
         alpha = ALPHABETS[name]
         is_add = [a[0] in ADDS for a in alpha]
+        # on an empty cache every other letter is a no-op, so a word starting with one repeats a shorter word
+        opening = [a[0] in ADDS or a[0] in ("pt", "shutdown") for a in alpha]
         k = 0
         for d in range(1, depth + 1):
             for word in itertools.product(range(len(alpha)), repeat=d):
                 # a word that registers nothing has nothing to resolve
-                if not any(is_add[i] for i in word):
+                if not opening[word[0]] or not any(is_add[i] for i in word):
                     continue
                 k += 1
                 if k % nshards != shard:
@@ -770,18 +783,28 @@ def _strategies():
     addr = st.tuples(st.just("addr"), prefix, ti, beh, fv, st.integers(0, 5)).map(list)
     pop = st.tuples(st.just("pop"), prefix, st.integers(0, 5), st.integers(0, 1)).map(list)
     popc = st.tuples(st.just("popc"), st.integers(0, 30)).map(list)
+    popd = st.tuples(st.just("popd"), st.integers(0, 3), st.integers(0, 3)).map(list)
     get = st.tuples(st.sampled_from(["get", "has"]), prefix, st.integers(0, 5), st.integers(0, 1)).map(list)
     retrieve = st.tuples(st.just("retrieve"), prefix, st.integers(0, 5), st.integers(0, 1)).map(list)
     future = st.tuples(st.just("future"), st.integers(0, 30), st.integers(1, 3)).map(list)
     eps = st.sampled_from([-1, 0, 0, 1])
     adv = st.tuples(st.just("adv"), st.integers(0, 5), eps).map(list)
     sleep = st.tuples(st.just("sleep"), st.sampled_from([0, 0.1, 0.4, 0.5, 0.9, 1.0, 4.0, 5.0])).map(list)
-    inner = st.one_of(pop, popc, retrieve, add, get, st.just(["clear"]))
+    inner = st.one_of(pop, popc, popd, popd, popd, retrieve, add, get, st.just(["clear"]))
     at = st.tuples(st.just("at"), st.integers(0, 5), eps, inner).map(list)
     pt = st.tuples(st.just("pt"), st.integers(0, len(FILTERS) - 1), st.integers(0, 2), st.integers(1, 3)).map(list)
     rare = st.sampled_from([["clear"], ["shutdown"]])
-    op = st.one_of(add, add, add, addr, pop, popc, popc, retrieve, adv, adv, adv, sleep, at, at, pt, get, future, rare)
-    return st.lists(op, max_size=40)
+    op = st.one_of(add, add, add, addr, pop, popc, popd, popd, popd, retrieve, adv, adv, adv, adv, sleep, at, at, pt, get,
+                   future, rare)
+    adds = st.lists(st.one_of(add, add, addr), min_size=1, max_size=3)
+    # motifs that aim a claim / clear / shutdown at a deadline; single ops fill the space between them
+    motif = st.one_of(
+        op.map(lambda o: [o]), op.map(lambda o: [o]),
+        st.tuples(adds, adv, st.one_of(popd, popd, rare)).map(lambda t: [*t[0], t[1], t[2]]),
+        st.tuples(adds, at, adv).map(lambda t: [*t[0], t[1], t[2]]),
+        st.tuples(pt, adds).map(lambda t: [t[0], *t[1]]),
+    )
+    return st.lists(motif, max_size=12).map(lambda ms: [o for m in ms for o in m][:40])
 
 
 def _random_shard(ctx: Ctx, shard: int, nshards: int, n: int) -> None:
